@@ -39,7 +39,8 @@ CLAIMED["C03"] = dict(
     text="Bounded model checking of the compiled pipeline executor (pipeline_fwd / pipeline_inv / Op::apply): a "
          "pipeline of 0..3 steps with non-commuting exact marker kernels, symbolic per-step inv/omit_fwd/omit_inv "
          "(all 2^(3N) placements), symbolic per-step success counts and all operand bit patterns equals the fold "
-         "written from the property text, both directions, incl. the pipeline itself inverted.",
+         "written from the property text, both directions, incl. the pipeline itself inverted; steps named stack/push/"
+         "pop are routed to the stack machine in both directions with a fresh stack per application.",
     note=TRUST + "M-BTREE for the flag sets; steps are harness-built Op values (struct literals). Engine S adds one "
          "obligation on the text front end: the macro-inversion predicate of Op::op (read from src/op/mod.rs) agrees "
          "with 'inv or inv=true is one of the words of the step' for all normalized macro steps of <= 12 units. "
@@ -145,9 +146,11 @@ CLAIMED["C10"] = dict(
          "elements bit-identical, first-hit grid, count honest, a tuple outside all grids is all NaN unless the null "
          "grid is given; gridshift inverse: count <= n and an uncounted tuple is NaN whatever the grids answer and "
          "whether or not the iteration converges; deformation forward/inverse: first-hit grid, per-tuple epoch, "
-         "honest count, NaN for uncovered tuples, null grid passes unchanged.",
+         "honest count, NaN for uncovered tuples, null grid passes unchanged; the placeholder inverse of a one-way "
+         "operator returns 0 and touches nothing; thorough tier: tmerc inverse strip guard.",
     note=TRUST + "M-BTREE, S-ACC(boolean), S-GRID (a Grid impl answering arbitrarily but monotonically in the "
-         "margin), S-UF-SMALL(hypot; atan2/hypot/sqrt/powi inside geographic). Stack underflow (C12) and the pipeline "
+         "margin; S-GRID-SEQ answers arbitrarily per lookup, for the inverse iteration), S-UF-SMALL(hypot; atan2/hypot/"
+         "sqrt/powi inside geographic). Stack underflow (C12) and the pipeline "
          "minimum rule (C03) are decided by those checks. Outside: domain limits of projections (tmerc strip, laea "
          "disc) - their guards compare libm results.",
     technique="Kani/CBMC bounded model checking (SAT) with nondeterministic grid stubs",
@@ -157,9 +160,13 @@ CLAIMED["C13"] = dict(
          "merc kernel with uninterpreted-but-consistent libm: x_0,y_0 are added to the forward result and removed by "
          "the inverse, lon_0 given in degrees is equivalent to subtracting it (in radians) from the input longitude, "
          "height and time are bit-identical; the noop kernel (shared by all aliases) returns every tuple untouched "
-         "and counts it.",
+         "and counts it. Constructor level, with the text front end stubbed (S-PPNEW): `utm zone=Z [south]` stores "
+         "exactly lon_0=6Z-183, k_0=0.9996, x_0=500000, lat_0=0, y_0=0/10000000 and refuses zones outside 1..60; "
+         "`merc lat_ts=L` replaces k_0 by cos L/sqrt(1-e^2 sin^2 L) for every non-zero L of either sign.",
     note=TRUST + "M-BTREE; S-ACC for the indexed accessors k/x/y/lat/lon and ellps (values also written to the "
-         "real map); S-UF-SMALL for tan, asinh, sin, atanh, sinh, atan, exp, sqrt. Values in D-SMALL. Outside: the "
+         "real map); S-UF-SMALL for tan, asinh, sin, atanh, sinh, atan, exp, sqrt, sin_cos; S-PPNEW: ParsedParameters::new, "
+         "OpDescriptor::new, Uuid::new_v4 and tmerc's shared precompute step stubbed (counterexamples are replayed "
+         "through the real text front end). Values in D-SMALL. Outside: the "
          "same relations for tmerc/lcc/laea/omerc/somerc (kernels with 50-100 float operations: relational proofs "
          "do not finish), and every relation between constructors (utm vs tmerc, lat_ts vs k_0, 1SP vs 2SP lcc, "
          "semi-major-axis scaling, merc(sphere) vs webmerc), which live behind text instantiation and libm.",
